@@ -165,7 +165,8 @@ theorem or_branch_completes (fuel : Nat) (s : VM) (f : FUid) (i : Inst) (x : Ins
     (hleaf : ∀ c ∈ us.map (·.1), ((OMap.lookup (f, c) s.r.hx).getD {}).childHeadUids = [])
     (hmu : mu ∉ us.map (·.1)) (hfp : fp ≠ pe + 1) :
     ∃ s' i' x', slide (fuel + 4) f uj.1 s = .ok [(f, r)] s' ∧ FlowAt s' f i' x' cfg ∧ x'.ctxOwner = x.ctxOwner ∧
-      hview i' = [(r, pe + 1, HeadStatus.active)] ∧ s'.r.nextUid = s.r.nextUid := by
+      hview i' = [(r, pe + 1, HeadStatus.active)] ∧ s'.r.nextUid = s.r.nextUid ∧ i'.status = i.status ∧ s'.r.cleared = s.r.cleared ∧
+      ∃ y', OMap.lookup (f, r) s'.r.hx = some y' ∧ y'.catchLabels = ((OMap.lookup (f, uj.1) s.r.hx).getD {}).catchLabels := by
   have hndv : ((hview i).map (·.1)).Nodup := by
     rw [hv, List.map_cons, renderB_fst _ _ _ hlen]; exact hndu
   -- the merging head and the forking head
@@ -256,7 +257,7 @@ theorem or_branch_completes (fuel : Nat) (s : VM) (f : FUid) (i : Inst) (x : Ins
       simp only [Bool.not_eq_true', List.contains_eq_mem, decide_eq_false_iff_not] at hm
       exact absurd hujmem hm
   have hstep2 := slideStep_gone (fuel + 2) s1 f uj.1 i1 x1 cfg F1 hgone
-  refine ⟨s1, i1, x1, ?_, F1, ho1, ?_, hn1.1⟩
+  refine ⟨s1, i1, x1, ?_, F1, ho1, ?_, hn1⟩
   · simp only [slide, slideLoop, bind, EStateM.bind, hstep, hstep2, Bool.false_eq_true, if_false, if_true, pure, EStateM.pure,
       List.nil_append, List.append_nil]
   · rw [hv1, hv, hpos]
